@@ -1116,3 +1116,74 @@ func (c *Ctx) writerWrites(rule string, funcs []*FuncInfo, clause string) int {
 	}
 	return n
 }
+
+// DISPATCH (sibling): ParsimonyAcr and ParsimonyAsr run the same passes for the same algorithm
+// constant, in the same order and with the same use of the random-resolution option, and both end
+// by writing the result onto the tree. The two dispatchers are reduced to `case -> pass(last
+// argument), ...` plus the assign call after the switch, and compared.
+func (c *Ctx) parsDispatch(rule, clause string) {
+	reduce := func(fi *FuncInfo) (map[string]string, string, bool) {
+		if fi == nil || fi.Decl.Body == nil {
+			return nil, "", false
+		}
+		info := fi.Pkg.TypesInfo
+		out := map[string]string{}
+		tail := ""
+		found := false
+		ast.Inspect(fi.Decl.Body, func(n ast.Node) bool {
+			sw, ok := n.(*ast.SwitchStmt)
+			if !ok || sw.Tag == nil {
+				return true
+			}
+			isAlgo := false
+			for _, cs := range sw.Body.List {
+				cc := cs.(*ast.CaseClause)
+				for _, e := range cc.List {
+					if cn := constObj(info, e); cn != nil && strings.HasPrefix(cn.Name(), "ALGO_") {
+						isAlgo = true
+					}
+				}
+			}
+			if !isAlgo {
+				return true
+			}
+			found = true
+			for _, cs := range sw.Body.List {
+				cc := cs.(*ast.CaseClause)
+				var seq []string
+				for _, call := range callsIn(&ast.BlockStmt{List: cc.Body}, true) {
+					fn := calleeOf(info, call)
+					if fn == nil || !inRepo(fn) || !strings.HasPrefix(fn.Name(), "parsimony") || len(call.Args) == 0 {
+						continue
+					}
+					seq = append(seq, fn.Name()+"("+c.canon(info, call.Args[len(call.Args)-1], nil)+")")
+				}
+				for _, e := range cc.List {
+					if cn := constObj(info, e); cn != nil {
+						out[cn.Name()] = strings.Join(seq, " ; ")
+					}
+				}
+			}
+			// after the switch: the call that writes the result onto the tree
+			for _, call := range callsIn(fi.Decl.Body, true) {
+				if fn := calleeOf(info, call); fn != nil && inRepo(fn) && strings.HasPrefix(fn.Name(), "assign") && call.Pos() > sw.End() {
+					tail = "assign"
+				}
+			}
+			return true
+		})
+		return out, tail, found
+	}
+	a, ta, oka := reduce(c.Func("acr", "", "ParsimonyAcr"))
+	b, tb, okb := reduce(c.Func("asr", "", "ParsimonyAsr"))
+	if !oka || !okb {
+		c.Undecided(rule, "parsimony/dispatch", token.NoPos, "the switch over the algorithm constants was not found in ParsimonyAcr / ParsimonyAsr")
+		return
+	}
+	for _, k := range []string{"ALGO_DOWNPASS", "ALGO_DELTRAN", "ALGO_ACCTRAN"} {
+		c.Check(a[k] == b[k] && a[k] != "", rule, "parsimony/dispatch/"+k, token.NoPos, k+": "+a[k]+" in both packages",
+			fmt.Sprintf("for %s the character reconstruction runs `%s` and the sequence reconstruction `%s`: the two no longer apply the same passes", k, a[k], b[k])).Clause = clause
+	}
+	c.Check(ta == "assign" && tb == "assign", rule, "parsimony/dispatch/result-written", token.NoPos, "both write the reconstructed states onto the tree after the passes",
+		"one of the two reconstructions no longer writes its result onto the tree after the passes (assign* call missing after the switch)").Clause = clause
+}
